@@ -564,6 +564,13 @@ func getPool() *pool {
 		if len(e.Data) > 64*1024 {
 			continue
 		}
+		if e.Path == "format/zip/testdata/bigzero-zip.zip" {
+			// a decompression bomb (its own golden test runs with -o
+			// uncompress=false): decoding it legitimately needs gigabytes; with the
+			// default options every variant of it is an out-of-memory death or a
+			// 10 s hang, which made one thorough shard restart 279 times
+			continue
+		}
 		p.byFmt[poolKey(e)] = append(p.byFmt[poolKey(e)], e)
 	}
 	for k, v := range generated() {
